@@ -76,6 +76,21 @@ def run(chk):
     chk.call(r3_index_refresh, chk)
     chk.call(r4_lock_identity, chk, base)
     chk.call(r5_writes_under_lock, chk, base, classes)
+    # R6: "a reader sees only complete records" and "no record of a completed session is lost" also for the session that ended
+    # with an exception in the backend write: what the next session's index refresh (map_blocks, anchored here as well) admits,
+    # where it lets the next append start, that the torn tail is cut off before that append, and that a put that failed
+    # registered nothing.  These are the clauses C03.R2-R4 and C02.R1 decide, evaluated under this property's name.
+    from . import c02, c03
+
+    UKV = "molli.storage.ukvfile"
+    put = prog.func(f"{UKV}:UKVFile.put")
+    mapb = prog.func(f"{UKV}:UKVFile.map_blocks")
+    chk.analysed(put, mapb)
+    chk.borrow("C04.R6", c02.r1_commit_last, chk, put)
+    guard = chk.borrow("C04.R6", c03.r2_complete_records, chk, mapb)
+    if guard is not chk.REFUSED:
+        chk.borrow("C04.R6", c03.r3_eof, chk, mapb, guard)
+    chk.borrow("C04.R6", c03.r4_torn_tail, chk, mapb, put)
 
 
 def session(chk, f, kind, begin, end):
